@@ -17,18 +17,18 @@ func init() {
 		ID:    "C14",
 		Title: "In-house DNSSEC primitives agree with an independent reference",
 		Run:   runC14,
-		Explanation: "Decided (structure only, no verdict is computed): R1 the algorithm and digest tables agree with the miekg/dns source in the module cache — " +
+		Explanation: "Decided (structure only, no verdict is computed): R1 the algorithm and digest tables — read from the control-flow graph, so a switch, an if/else chain, an || expression, a named result or a map-literal lookup are the same table — agree with the miekg/dns source in the module cache — " +
 			"IsSupportedDNSKEYAlgorithm = the algorithm cases of (*RRSIG).Verify; verifySignatureSupported ⊆ verifySignature's dispatch ⊆ the library's; the RSA/ECDSA/Ed25519 families of the dispatch equal the library's families and " +
 			"rsaHash/rsaCryptoHash/ecdsaParameters cover exactly their family; every algorithm→hash pairing equals dns.AlgorithmToHash and every algorithm→curve pairing equals (*DNSKEY).publicKeyECDSA; " +
 			"IsSupportedDSDigest = dsDigestHash ⊆ (*DNSKEY).ToDS with the same digest→hash pairing. " +
 			"R2 preflight before mathematics: verifySignature reaches a verifier only across signatureBinding=nil and rrsigSignedData err=nil and hands it that signed data; signatureBinding returns nil only across the twelve binding atoms and reads every field the library's own refusals read; " +
 			"verifyRSASignature reaches either RSA verification only across parseRSAPublicKey ok and usableRSAKey true, the standard-library one only across e.BitLen() ≤ 31; rsaVerifyPKCS1v15 reaches Exp only across the length and range checks and accepts only across ConstantTimeCompare == 1; " +
-			"ECDSA/Ed25519 reach their Verify only across the exact key and signature lengths; dsDigestMatches compares only across the digest-type, size, oversize and decoded-length refusals; KeyTag decodes only across oversizedKeyMaterial=false and answers a chunk-decode error with the library's tag; " +
+			"ECDSA/Ed25519 reach their Verify only across the exact key and signature lengths; dsDigestMatches compares only across the digest-type, size, oversize and decoded-length refusals; KeyTag decodes only across oversizedKeyMaterial=false, answers a chunk-decode error with the library's tag, and decodes a further chunk only after the previous one yielded exactly len(out) octets (octet parity across chunks); " +
 			"who may call the raw verifiers is fixed. R3 the size ceilings are constants within the documented limits and are the operands actually compared in usableRSAKey.",
 		NotDecided: []string{
 			"equality of verdicts (key tags, digests, signature validity) over all byte strings — a numerical relation",
 			"the bytes of the canonical signed-data form (rrsigSignedData / canonicalRRset), including wildcard label count and original TTL",
-			"key-tag arithmetic of the chunked decoder and of rsamd5KeyTag",
+			"key-tag arithmetic of the chunked decoder and of rsamd5KeyTag (the chunk-discipline rule recognises the `encoded = encoded[n:]` remaining-text loop; an index-based rewrite of that loop is reported for review rather than decided)",
 			"absence of panics on malformed input",
 			"timing / super-linear work on attacker-supplied material (DESIGN R4 is evidence only and not armed)",
 		},
@@ -74,6 +74,12 @@ func c14AtMost(name string, lhs Pat, n int64) Barrier {
 }
 
 func runC14(c *Ctx) {
+	// edge barriers also recognise their guard through negations and named booleans (c02Deep, c02_util.go)
+	OnTrue := func(name string, p Pat) Barrier { return c02Deep(OnTrue(name, p)) }
+	OnFalse := func(name string, p Pat) Barrier { return c02Deep(OnFalse(name, p)) }
+	OnCmp := func(name string, lhs Pat, op token.Token, rhs Pat, holds bool) Barrier {
+		return c02Deep(OnCmp(name, lhs, op, rhs, holds))
+	}
 	const pkg = "middleware/resolver/dnssec"
 	const lib = "github.com/miekg/dns"
 	algTag := switchTagMentions("Algorithm")
@@ -147,13 +153,68 @@ func runC14(c *Ctx) {
 		}
 	}
 
-	supported := cases(pkg+".IsSupportedDNSKEYAlgorithm", nil)
-	gate := cases(pkg+".verifySignatureSupported", nil)
-	dispatch := cases(pkg+".verifySignature", algTag)
+	// sdns-side tables are read from the control-flow graph (switch, if/else chain,
+	// || expression, early returns, named result, map-literal lookup alike); the
+	// library side, whose source is fixed, is read from its syntax.
+	paramTag := c14ParamIdx(0)
+	table := func(path string, tag Pat, idx int) map[string]string {
+		fn := c.fn("C14-R1", path)
+		if fn == nil {
+			return nil
+		}
+		t := c14ArmTable(fn, tag, idx)
+		if len(t) == 0 {
+			if m, ok := c14MapTable(c.P, fn, tag, idx); ok {
+				t = m
+			}
+		}
+		if len(t) == 0 {
+			c.unresolved("C14-R1", path, "no comparison of the table's tag with a constant and no lookup in a package-level map literal found")
+			return nil
+		}
+		return t
+	}
+	// okSet: the keys for which the boolean result #idx is true; a key outside the table must get false
+	okSet := func(path string, idx int) map[string]bool {
+		t := table(path, paramTag, idx)
+		if t == nil {
+			return nil
+		}
+		out := map[string]bool{}
+		for k, v := range t {
+			switch v {
+			case "const:true":
+				out[k] = true
+			case "const:false":
+			default:
+				c.undecided("C14-R1", "C14-R1|"+path+"|verdict for "+k, token.NoPos, "the verdict for key "+k+" is not a boolean constant on its arm: "+v)
+			}
+		}
+		// keys outside the table must be refused (checked when the table is branch-built and the
+		// fall-through value is the same on every path; a map literal's zero value is false by construction)
+		if fn := c.fn("C14-R1", path); fn != nil && len(c14ArmTable(fn, paramTag, idx)) > 0 {
+			if d := c14DefaultResult(fn, paramTag, idx); d != "" && d != "const:false" {
+				c.violation("C14-R1", "C14-R1|"+path+"|keys outside the table", token.NoPos, "a key outside the table is not refused (result "+d+")")
+			}
+		}
+		return out
+	}
+	// valueTable: key → value id of result #valIdx, for the keys okSet admits
+	valueTable := func(path string, valIdx int, admitted map[string]bool) map[string]string {
+		t := table(path, paramTag, valIdx)
+		out := map[string]string{}
+		for k, v := range t {
+			if admitted[k] {
+				out[k] = v
+			}
+		}
+		return out
+	}
+
+	supported := okSet(pkg+".IsSupportedDNSKEYAlgorithm", 0)
+	gate := okSet(pkg+".verifySignatureSupported", 0)
 	libVerify := cases(lib+".(*RRSIG).Verify", algTag)
 	relate("IsSupportedDNSKEYAlgorithm = library Verify", supported, libVerify, true, "IsSupportedDNSKEYAlgorithm cases = algorithm cases of dns.(*RRSIG).Verify")
-	relate("verifySignatureSupported ⊆ verifySignature", gate, dispatch, false, "every algorithm cryptoVerify routes to the in-house verifier is implemented by its dispatch")
-	relate("verifySignature ⊆ library Verify", dispatch, libVerify, false, "in-house dispatch ⊆ library algorithms")
 	relate("verifySignatureSupported ⊆ IsSupportedDNSKEYAlgorithm", gate, supported, false, "in-house gate ⊆ supported algorithms")
 
 	// families of the dispatch
@@ -172,8 +233,19 @@ func runC14(c *Ctx) {
 		return famOf[f.FullName()]
 	}
 	var ours, theirs map[string]map[string]bool
-	if fd, info := decl(pkg + ".verifySignature"); fd != nil {
-		ours = c14ClauseFamilies(fd, info, algTag, classify)
+	if fn := c.fn("C14-R1", pkg+".verifySignature"); fn != nil {
+		ours = c14ArmFamilies(fn, FieldIs(c.field("C14-R1", lib+".RRSIG.Algorithm")), classify)
+		dispatch := map[string]bool{}
+		for fam, ks := range ours {
+			if fam == "none" {
+				continue
+			}
+			for k := range ks {
+				dispatch[k] = true
+			}
+		}
+		relate("verifySignatureSupported ⊆ verifySignature", gate, dispatch, false, "every algorithm cryptoVerify routes to the in-house verifier is implemented by its dispatch")
+		relate("verifySignature ⊆ library Verify", dispatch, libVerify, false, "in-house dispatch ⊆ library algorithms")
 	}
 	if fd, info := decl(lib + ".(*RRSIG).Verify"); fd != nil {
 		theirs = c14ClauseFamilies(fd, info, algTag, classify)
@@ -212,10 +284,13 @@ func runC14(c *Ctx) {
 		}
 	}
 	// helper tables cover exactly their family
+	rsaHashSet := okSet(pkg+".rsaHash", 2)
+	rsaCryptoSet := okSet(pkg+".rsaCryptoHash", 1)
+	ecdsaSet := okSet(pkg+".ecdsaParameters", 2)
 	if ours != nil {
-		relate("rsaHash = rsa family", cases(pkg+".rsaHash", nil), ours["rsa"], true, "rsaHash cases = RSA clause")
-		relate("rsaCryptoHash = rsa family", cases(pkg+".rsaCryptoHash", nil), ours["rsa"], true, "rsaCryptoHash cases = RSA clause")
-		relate("ecdsaParameters = ecdsa family", cases(pkg+".ecdsaParameters", nil), ours["ecdsa"], true, "ecdsaParameters cases = ECDSA clause")
+		relate("rsaHash = rsa family", rsaHashSet, ours["rsa"], true, "rsaHash keys = RSA clause")
+		relate("rsaCryptoHash = rsa family", rsaCryptoSet, ours["rsa"], true, "rsaCryptoHash keys = RSA clause")
+		relate("ecdsaParameters = ecdsa family", ecdsaSet, ours["ecdsa"], true, "ecdsaParameters keys = ECDSA clause")
 	}
 
 	// hash pairings against dns.AlgorithmToHash
@@ -253,32 +328,22 @@ func runC14(c *Ctx) {
 		libHash = m
 	}
 	if libHash != nil {
-		if fd, info := decl(pkg + ".rsaCryptoHash"); fd != nil {
-			relateMap("rsaCryptoHash pairing", c14CaseValues(fd, info, nil, 0), libHash, "rsaCryptoHash algorithm→crypto.Hash = dns.AlgorithmToHash")
-		}
-		if fd, info := decl(pkg + ".rsaHash"); fd != nil {
-			relateMap("rsaHash pairing", viaCtor(c14CaseValues(fd, info, nil, 0)), libHash, "rsaHash algorithm→hash constructor = dns.AlgorithmToHash")
-		}
-		if fd, info := decl(pkg + ".ecdsaParameters"); fd != nil {
-			relateMap("ecdsaParameters hash pairing", viaCtor(c14CaseValues(fd, info, nil, 1)), libHash, "ecdsaParameters algorithm→hash constructor = dns.AlgorithmToHash")
-		}
+		relateMap("rsaCryptoHash pairing", valueTable(pkg+".rsaCryptoHash", 0, rsaCryptoSet), libHash, "rsaCryptoHash algorithm→crypto.Hash = dns.AlgorithmToHash")
+		relateMap("rsaHash pairing", viaCtor(valueTable(pkg+".rsaHash", 0, rsaHashSet)), libHash, "rsaHash algorithm→hash constructor = dns.AlgorithmToHash")
+		relateMap("ecdsaParameters hash pairing", viaCtor(valueTable(pkg+".ecdsaParameters", 1, ecdsaSet)), libHash, "ecdsaParameters algorithm→hash constructor = dns.AlgorithmToHash")
 	}
-	if fd, info := decl(pkg + ".ecdsaParameters"); fd != nil {
-		if lfd, linfo := decl(lib + ".(*DNSKEY).publicKeyECDSA"); lfd != nil {
-			relateMap("ecdsaParameters curve pairing", c14CaseValues(fd, info, nil, 0), c14CaseValues(lfd, linfo, algTag, 0), "ecdsaParameters algorithm→curve = dns.(*DNSKEY).publicKeyECDSA")
-		}
+	if lfd, linfo := decl(lib + ".(*DNSKEY).publicKeyECDSA"); lfd != nil {
+		relateMap("ecdsaParameters curve pairing", valueTable(pkg+".ecdsaParameters", 0, ecdsaSet), c14CaseValues(lfd, linfo, algTag, 0), "ecdsaParameters algorithm→curve = dns.(*DNSKEY).publicKeyECDSA")
 	}
 
 	// DS digests
-	dsSupported := cases(pkg+".IsSupportedDSDigest", nil)
-	dsHash := cases(pkg+".dsDigestHash", nil)
+	dsSupported := okSet(pkg+".IsSupportedDSDigest", 0)
+	dsHash := okSet(pkg+".dsDigestHash", 1)
 	toDS := cases(lib+".(*DNSKEY).ToDS", nil)
 	relate("IsSupportedDSDigest = dsDigestHash", dsSupported, dsHash, true, "IsSupportedDSDigest cases = dsDigestHash cases")
 	relate("dsDigestHash ⊆ library ToDS", dsHash, toDS, false, "digest types computed here ⊆ dns.(*DNSKEY).ToDS")
-	if fd, info := decl(pkg + ".dsDigestHash"); fd != nil {
-		if lfd, linfo := decl(lib + ".(*DNSKEY).ToDS"); lfd != nil {
-			relateMap("dsDigestHash pairing", c14CaseValues(fd, info, nil, 0), c14CaseValues(lfd, linfo, nil, 0), "dsDigestHash digest→crypto.Hash = dns.(*DNSKEY).ToDS")
-		}
+	if lfd, linfo := decl(lib + ".(*DNSKEY).ToDS"); lfd != nil {
+		relateMap("dsDigestHash pairing", valueTable(pkg+".dsDigestHash", 0, dsHash), c14CaseValues(lfd, linfo, nil, 0), "dsDigestHash digest→crypto.Hash = dns.(*DNSKEY).ToDS")
 	}
 	c.Floor("C14-R1", 20)
 
@@ -388,7 +453,7 @@ func runC14(c *Ctx) {
 			OnTrue("EqualFold(h0.Name, sig.Hdr.Name)", foldOf(h0Field(name), hdrField(name, sigHdr))),
 			OnTrue("NameInZone(h0.Name, signer)", CallTo(nameInZone)),
 		}
-		c.MustCrossAll("C14-R2", fn, "signatureBinding returns nil", isReturnWith(0, IsNilConst), atoms...)
+		c.c14MustCrossAcceptAll("C14-R2", fn, "signatureBinding returns nil", 0, IsNilConst, nil, atoms...)
 
 		// E9: every field the library's own refusals read is read here too
 		lfd, lpk := c.P.FuncDecl(lib + ".(*RRSIG).Verify")
@@ -454,7 +519,7 @@ func runC14(c *Ctx) {
 			OnCmp("c < n", func(e *Expr) bool {
 				return CallTo(cmp)(e) && len(strip(e).Args) == 2 && c14ParamIdx(0)(strip(e).Args[1])
 			}, token.LSS, IsConstInt(0), true))
-		c.MustCross("C14-R2", fn, "accept", isReturnWith(0, IsNilConst),
+		c.c14MustCrossAccept("C14-R2", fn, "accept", 0, IsNilConst, nil,
 			OnCmp("ConstantTimeCompare == 1", CallTo(ctc), token.EQL, IsConstInt(1), true))
 	}
 
@@ -535,8 +600,9 @@ func runC14(c *Ctx) {
 				r, ok := in.(*ssa.Return)
 				return ok && len(r.Results) == 1 && !CallTo(libTag)(Desc(r.Results[0]))
 			})
+		c14KeyTagChunkDiscipline(c, fn, dec, pkg)
 	}
-	c.Floor("C14-R2", 61)
+	c.Floor("C14-R2", 62)
 
 	// ------------------------------------------------------------------ R3
 	c.Doc("C14-R3", "size ceilings are package constants within the documented limits, and usableRSAKey returns true only across comparisons against exactly those constants")
@@ -548,10 +614,10 @@ func runC14(c *Ctx) {
 	c.ConstBound("C14-R3", pkg+".ecdsaMaxCoordinate", token.GEQ, 48, "stack point buffer must hold a P-384 coordinate pair")
 	if v := c.P.ConstVal(pkg + ".keyTagChunk"); v == nil {
 		c.unresolved("C14-R3", pkg+".keyTagChunk", "constant not found")
-	} else if n, ok := constant.Int64Val(constant.ToInt(v)); !ok || n <= 0 || n%4 != 0 {
-		c.violation("C14-R3", "C14-R3|const keyTagChunk multiple of 4", c.P.Object(pkg+".keyTagChunk").Pos(), "keyTagChunk = "+v.ExactString()+" is not a positive multiple of four: chunks would split base64 groups and the tag would differ from a single decode")
+	} else if n, ok := constant.Int64Val(constant.ToInt(v)); !ok || n <= 0 || n%8 != 0 {
+		c.violation("C14-R3", "C14-R3|const keyTagChunk multiple of 8", c.P.Object(pkg+".keyTagChunk").Pos(), "keyTagChunk = "+v.ExactString()+" is not a positive multiple of eight: a chunk must be whole base64 groups (×4) and decode to an even number of octets (×8), or the octet parity the checksum weights by is lost at the chunk boundary")
 	} else {
-		c.ok("C14-R3", "C14-R3|const keyTagChunk multiple of 4", c.P.Object(pkg+".keyTagChunk").Pos(), "keyTagChunk = "+v.ExactString()+" is whole base64 groups")
+		c.ok("C14-R3", "C14-R3|const keyTagChunk multiple of 8", c.P.Object(pkg+".keyTagChunk").Pos(), "keyTagChunk = "+v.ExactString()+": whole base64 groups, even number of decoded octets per full chunk")
 	}
 	if fn := c.fn("C14-R3", pkg+".usableRSAKey"); fn != nil && bitLen != nil {
 		cmp := c.fobj("C14-R3", "math/big.(*Int).Cmp")
@@ -572,7 +638,7 @@ func runC14(c *Ctx) {
 			}
 		}
 		if minB != nil && maxB != nil && maxE != nil {
-			c.MustCrossAll("C14-R3", fn, "usableRSAKey returns true", isReturnWith(0, IsConstBool(true)),
+			c.c14MustCrossAcceptAll("C14-R3", fn, "usableRSAKey returns true", 0, IsConstBool(true), nil,
 				OnCmp("n.BitLen() >= minRSAModulusBits", bitLenOf(0), token.GEQ, c14ConstPat(minB), true),
 				OnCmp("n.BitLen() <= maxRSAModulusBits", bitLenOf(0), token.LEQ, c14ConstPat(maxB), true),
 				OnCmp("e.BitLen() <= maxRSAExponentBits", bitLenOf(1), token.LEQ, c14ConstPat(maxE), true),
@@ -582,4 +648,121 @@ func runC14(c *Ctx) {
 		}
 	}
 	c.Floor("C14-R3", 13)
+}
+
+// c14KeyTagChunkDiscipline (C14-R2, round 2): KeyTag weights every octet by its
+// offset parity *within the chunk*, which equals its parity within the RDATA
+// only while every earlier chunk contributed the full, even len(out) octets.
+// So after a chunk has been decoded, another chunk may be decoded only across
+// the edge "decoded == len(out)"; any other non-final chunk has to leave the
+// function (it is handed to the library).  base64 skips CR/LF, so a chunk can
+// decode short without error and without ending in padding.
+//
+// The loop re-tests the remaining text at its head.  The edge "remaining text
+// is empty" taken inside the body therefore also ends the iteration: it is
+// accepted as a barrier only after checking that the head's test is on a phi
+// whose every back-edge value is that same remaining-text value.
+func c14KeyTagChunkDiscipline(c *Ctx, fn *ssa.Function, dec *types.Func, pkg string) {
+	const rule = "C14-R2"
+	key := "C14-R2|" + fnKey(fn) + "|next chunk only after a full chunk"
+	decodes := instrsWhere(fn, isPlainCallTo(dec))
+	if len(decodes) == 0 || dec == nil {
+		c.unresolved(rule, "KeyTag|chunk discipline", "no chunk decode found")
+		return
+	}
+	// the full-chunk length: the destination buffer of the decode
+	var full int64 = -1
+	for _, in := range decodes {
+		if sl, ok := callArg(in, 1).(*ssa.Slice); ok {
+			if arr, ok := deref(sl.X.Type()).Underlying().(*types.Array); ok {
+				full = arr.Len()
+			}
+		}
+	}
+	if v := c.P.ConstVal(pkg + ".keyTagChunk"); v != nil && full >= 0 {
+		if n, ok := constant.Int64Val(constant.ToInt(v)); ok && n/4*3 != full {
+			c.violation(rule, "C14-R2|"+fnKey(fn)+"|decode buffer = keyTagChunk/4*3", fn.Pos(), fmt.Sprintf("decode buffer holds %d octets, a full chunk of keyTagChunk=%d decodes to %d", full, n, n/4*3))
+		}
+	}
+	if full < 0 {
+		c.undecided(rule, key, fn.Pos(), "the chunk decode does not write into a fixed-size array: full-chunk length unknown")
+		return
+	}
+	isFull := func(e *Expr) bool { v, ok := constInt(e); return ok && v == full }
+	decoded := ResultOf(0, dec)
+	bars := []Barrier{
+		OnCmp("decoded == len(out)", decoded, token.EQL, isFull, true),
+		OnCmp("decoded >= len(out)", decoded, token.GEQ, isFull, true),
+	}
+	// the remaining-text value and the loop-head test
+	var rest []ssa.Value
+	for _, b := range fn.Blocks {
+		for _, in := range b.Instrs {
+			phi, ok := in.(*ssa.Phi)
+			if !ok {
+				continue
+			}
+			if bt, ok := phi.Type().Underlying().(*types.Basic); !ok || bt.Info()&types.IsString == 0 {
+				continue
+			}
+			var back []ssa.Value
+			okPhi := true
+			nonSelf := 0
+			for _, ed := range phi.Edges {
+				if sl, ok := ed.(*ssa.Slice); ok && sl.X == ssa.Value(phi) && sl.Low != nil && sl.High == nil {
+					back = append(back, ed)
+					continue
+				}
+				nonSelf++
+			}
+			if len(back) == 0 || nonSelf != 1 {
+				okPhi = false
+			}
+			for _, v := range back {
+				if v != back[0] {
+					okPhi = false
+				}
+			}
+			if !okPhi {
+				continue
+			}
+			// every decode must lie behind "phi is not empty" (the loop head)
+			nonEmpty := []Barrier{
+				OnCmp("len(encoded) > 0", c14LenOfValue(phi), token.GTR, IsConstInt(0), true),
+				OnCmp("len(encoded) != 0", c14LenOfValue(phi), token.NEQ, IsConstInt(0), true),
+			}
+			headOK := true
+			for _, d := range decodes {
+				if ug, _ := c.unguarded(d, nonEmpty, fn); ug {
+					headOK = false
+				}
+			}
+			if headOK {
+				rest = append(rest, back[0])
+			}
+		}
+	}
+	for _, rv := range rest {
+		bars = append(bars,
+			OnCmp("remaining text empty (len == 0)", c14LenOfValue(rv), token.EQL, IsConstInt(0), true),
+			OnCmp("remaining text empty (len <= 0)", c14LenOfValue(rv), token.LEQ, IsConstInt(0), true))
+	}
+	var bn []string
+	for _, b := range bars {
+		bn = append(bn, b.Name)
+	}
+	for _, d := range decodes {
+		r := reach([]Point{pointAfter(d)}, bars, nil)
+		bad := false
+		for _, in := range r.order {
+			if isPlainCallTo(dec)(in) {
+				bad = true
+				c.violation(rule, key, instrPos(in), "after a chunk is decoded, a further chunk is decoded without crossing {"+strings.Join(bn, " | ")+"}: a non-final chunk that decoded short (line breaks inside it) shifts the octet parity of everything after it and the tag differs from the library's; path "+c.trail(r, in))
+				break
+			}
+		}
+		if !bad {
+			c.ok(rule, key, instrPos(d), "a further chunk is decoded only after a full chunk {"+strings.Join(bn, " | ")+"}")
+		}
+	}
 }
